@@ -264,10 +264,22 @@ def run_shards(prop, tier, seed, outdir, extra_args, wall_cap, nshards=None):
     for i in range(nshards):
         spawn(i)
     CPU_BUDGET = 25.0
+    MAX_TRIAGE = 3  # confirmed hangs / aborts that are re-run alone; after that shards are not restarted
+
+    def confirmed():
+        return sum(1 for inc in incidents if inc.get("solo") in ("hang", "abort"))
+
     t_start = time.time()
     reports = {}
     while procs:
         time.sleep(0.25)
+        if confirmed() >= MAX_TRIAGE:
+            # enough confirmed hangs / aborts: the verdict is clear, stop burning CPU
+            for i in list(procs):
+                procs[i]["p"].kill()
+                procs[i]["p"].wait()
+                del procs[i]
+            break
         for i in list(procs):
             st = procs[i]
             rc = st["p"].poll()
@@ -285,12 +297,15 @@ def run_shards(prop, tier, seed, outdir, extra_args, wall_cap, nshards=None):
                     if st["stuck_cpu"] > CPU_BUDGET:
                         st["p"].kill()
                         st["p"].wait()
-                        kind, detail = solo_replay(prop, inf["case"], fuel=fuel)
+                        del procs[i]
+                        if confirmed() >= MAX_TRIAGE:
+                            incidents.append({"shard": i, "seq": inf["seq"], "case": inf["case"], "first": "cpu_budget", "solo": "not_rerun", "detail": "CPU budget exceeded; not re-run alone because %d hangs / aborts were already confirmed" % MAX_TRIAGE})
+                            continue
+                        kind, detail = solo_replay(prop, inf["case"], fuel=fuel, cpu_limit=40)
                         incidents.append({"shard": i, "seq": inf["seq"], "case": inf["case"], "first": "cpu_budget", "solo": kind, "detail": detail})
                         excluded[i].append(inf["seq"])
                         restarts[i] += 1
-                        del procs[i]
-                        if restarts[i] <= 3:
+                        if restarts[i] <= 3 and confirmed() < MAX_TRIAGE:
                             spawn(i)
                         continue
                 if time.time() - t_start > wall_cap:
@@ -311,11 +326,14 @@ def run_shards(prop, tier, seed, outdir, extra_args, wall_cap, nshards=None):
             except Exception:
                 err = ""
             if inf:
-                kind, detail = solo_replay(prop, inf["case"], fuel=fuel)
+                if confirmed() >= MAX_TRIAGE:
+                    incidents.append({"shard": i, "seq": inf["seq"], "case": inf["case"], "first": "worker exit %s" % rc, "solo": "not_rerun", "detail": "worker died; not re-run alone because %d hangs / aborts were already confirmed" % MAX_TRIAGE})
+                    continue
+                kind, detail = solo_replay(prop, inf["case"], fuel=fuel, cpu_limit=40)
                 incidents.append({"shard": i, "seq": inf["seq"], "case": inf["case"], "first": "worker exit %s" % rc, "solo": kind, "detail": detail, "stderr": err})
                 excluded[i].append(inf["seq"])
                 restarts[i] += 1
-                if restarts[i] <= 3:
+                if restarts[i] <= 3 and confirmed() < MAX_TRIAGE:
                     spawn(i)
             else:
                 incidents.append({"shard": i, "first": "worker exit %s before any case" % rc, "solo": "inconclusive", "detail": err})
@@ -515,7 +533,10 @@ def check(prop, tier, seed, record_canaries=False):
     can_reports, can_incidents = run_shards(prop, "quick", CANARY_SEED, can_dir, ["--corpus", corpus_path], wall_cap=cap * 10 + 120, nshards=CANARY_SHARDS)
     if record_canaries:
         return record(prop, known, can_reports, can_incidents)
-    reports, incidents = run_shards(prop, tier, seed, outdir, [], wall_cap=cap * 10 + 120)
+    if sum(1 for inc in can_incidents if inc.get("solo") in ("hang", "abort")) >= 3:
+        reports, incidents = {}, []  # the canary phase already confirmed three hangs / aborts
+    else:
+        reports, incidents = run_shards(prop, tier, seed, outdir, [], wall_cap=cap * 10 + 120)
     incidents = can_incidents + incidents
     n_seeded_shards = len(reports)
     canary_violation_ids = set()
